@@ -1923,7 +1923,7 @@ func c13measureRaw(dir string, c c13case, res *c13out2) error {
 	if err := c13measure(dir, ms, o, st, "w"); err != nil {
 		return err
 	}
-	outp, err := exec.Command(filepath.Join(c13mustAbs(dir), "c13data")).Output()
+	outp, err := exec.Command(filepath.Join(c13mustAbs(dir), "prog", "c13data")).Output()
 	if err != nil {
 		return err
 	}
